@@ -72,6 +72,31 @@ claimed = {
    text="Decides structural necessary conditions, not field values over permutations: every iteration path of the definition-driven field loop consumes exactly one wire value; the destination index is findField(wire name of this iteration) and the helper compares name and capitalised name; x60..x6f and 'O' reach the object readers in ReadData, readStruct and readObjectDef; the compact instance header is emitted only with the untruncated index proven in [0,15]; both object readers guard the class index on both sides; the instance is reflect.New(mapped type).",
    design_ref="DESIGN.md §3 C05",
    note="A value-consuming call is a call to a package function from which readTag/getTag is reachable."),
+ "C01": dict(
+   technique="static table extraction over go/ssa: reflect.Kind→codec tables of encoder and field decoder from refined Kind() facts, first-octet tag sets of every emission vs first-match dispatch maps, interval check of compact headers, converted-sink rule",
+   text="The behaviour (round trip over all values) is NOT decided. Decides necessary conditions, each with a concrete failing value when violated: per scalar kind the encoder's and the field decoder's wire codec agree and the typed reflect setter matches the kinds reaching it; every first octet the encoder can emit resolves to the reader of its production in the value dispatcher and is accepted by the struct/list/map field dispatchers; compact list/instance headers carry the untruncated count proven in range; raw reflect sinks in container readers only store converted or interface-typed values.",
+   design_ref="DESIGN.md §3 C01",
+   note="Equality of field contents, element order and map entries is not decided; clauses shared with C04/C07/C08/C09 are reported there."),
+ "C02": dict(
+   technique="abstract interpretation of every encoder form and container header over go/ssa against the frozen Hessian 2.0 table; path rules for definition-before-instance, per-iteration value counts and map framing; value-flow of names and ordinals",
+   text="Whole-stream well-formedness under an independent parser is NOT decided (that needs emitted bytes). Decides per-form and per-header conformance with the frozen table (tags, octet counts, value ranges, windows, chunk arithmetic), count = loop bound, one value per iteration, class definition before instance with index = table position, lower-cased field names in declaration order, class name from the name map, Z on every successful map path, ref ordinal provenance.",
+   design_ref="DESIGN.md §3 C02, §3.0",
+   note="Known finding (recorded, not repaired): the compact date x4b carries seconds where the grammar says minutes. List type-name rewriting is not decided."),
+ "C09": dict(
+   technique="interval abstract interpretation of the string/binary encoders and length readers over go/ssa (form tag sets, length ranges, header windows, chunk-loop induction variables), unit-of-length typing rule, chunk-buffer and loop-exit path rules",
+   text="Content equality for all contents is NOT decided. Decides: lengths count runes of the []rune conversion (resp. octets), chunk cuts index that slice, payload is read one rune/octet per counted unit; every form's tag set, length range and header windows conform; offset and remaining length step by the chunk size under the guard remaining > chunk; readers compute in-range lengths and size buffers per chunk; because the encoder emits N for the empty string no container loop may end on a nil element/key.",
+   design_ref="DESIGN.md §3 C09",
+   note="Go's []rune/string conversions are trusted to be inverse on valid UTF-8."),
+ "C14": dict(
+   technique="two-sided index-guard rule (intervals + dominating comparison facts), interval bound of every non-constant allocation with call-site context and return-range summaries, stream-loop progress rule, recover-boundary reachability over the VTA call graph; panic-site census",
+   text="General panic freedom and resource bounds of the reflective decoder are NOT decided. Decides: every per-stream table access has an index proven ≥0 and dominated by a length comparison; every non-constant allocation on the decode path is proven ≤ 2^20 elements or sized by a container already in memory; every stream-reading loop passes, on each iteration path, a read whose error ends it; loop exits and tag-read errors follow C06.R3/R4; every documented decode entry point is covered by a deferred recover that sets its error result.",
+   design_ref="DESIGN.md §3 C14",
+   note="Stack depth on deeply nested input and fatal runtime errors other than allocation by declared size are not covered."),
+ "C16": dict(
+   technique="dominance and value-flow rules over go/ssa on the extraction functions: visited cut-off on recursive calls, nil-pointer descent (sibling rule), paired map updates by term equality",
+   text="Decides structural necessary conditions, not closure of the maps for all types: each recursive call of the type walk on a struct field's type is dominated by a failed membership test and the insertion; the value walk recurses only under the extractor's verdict and each extractor inserts the key it found absent; empty slices/maps and nil pointers are descended through reflect.New of the element type; every name-map update has a type-map update with the same key term.",
+   design_ref="DESIGN.md §3 C16",
+   note="Interface-typed fields and Java-side naming expectations are not decided."),
 }
 
 checks = []
@@ -91,7 +116,7 @@ for p in props:
         "level_note": COMMON_NOTE + c["note"],
         "technique": c["technique"],
     })
-na = [{"property_id": p["id"], "reason": "check not built yet (framework under construction; the planned static rules are in DESIGN.md §3)"} for p in props if p["id"] not in claimed]
+na = [{"property_id": p["id"], "reason": "no structural clause could be decided soundly (see DESIGN.md)"} for p in props if p["id"] not in claimed]
 m = {
  "version": 1,
  "setup_cmd": "./setup.sh",
